@@ -652,4 +652,9 @@ def run(rep, tier):
         rep.call(row_coverage.divide_every_chunk, rep, prog, "C09.chunk-stores",
                  {"x86": 12, "x86-rayon": 12, "wasm": 2}.get(cfg, 0))
         rep.call(state_fields, rep, prog, "C09.state-fields")
+        # the nearest step of supersampling fills the whole scratch image: the stepped row iterator
+        # yields one row per destination row (a short count leaves the last scratch row stale)
+        from . import c13 as _c13
+        rep.call(_c13.step_count, rep, prog, "C09.step-count")
+        rep.call(row_coverage.tail_complete, rep, prog, "C09.tail-complete")
         rep.call(index_rules.scratch_grow, rep, prog, "C09.scratch-grow")
